@@ -169,7 +169,9 @@ if else if else
 @@ trait CellType > fn wrapping_div @ d3 r
 @@ trait CellType > fn wrapping_div @ sig
         // "returns the smallest x with x*d = n (mod 2^width) and none exactly when no such x exists"
-        ensures match r {
+        ensures
+            #@canary r.is_none() && r.is_some(),
+            match r {
             Some(x) => (x.v() * div.v()) as int % m_of(Self::bits()) == self.v()
                 && forall|y: int| 0 <= y && #[trigger] ((y * div.v() as int) % m_of(Self::bits())) == self.v() ==> y >= x.v(),
             None => forall|y: int| 0 <= y ==> #[trigger] ((y * div.v() as int) % m_of(Self::bits())) != self.v(),
